@@ -157,6 +157,8 @@ pub struct ExecOut {
     pub chan: verif_chan::EvLog,
     /// fault: the consumer of results went away (its receiver was dropped) while dispatching was in progress
     pub consumer_gone: bool,
+    /// fault: shutdown() was called by another thread while dispatching was in progress
+    pub shutdown_raced: bool,
 }
 
 pub struct ExecPlan {
@@ -172,6 +174,8 @@ pub struct ExecPlan {
     /// fault: the consumer of results goes away — the result receiver is dropped by dispatcher 0 after it has
     /// handed over this many of its frames (0 = before the first one)
     pub consumer_gone_after: Option<usize>,
+    /// fault: a separate thread calls shutdown() after yielding this many times, while the dispatchers run
+    pub shutdown_after_yields: Option<usize>,
 }
 
 /// The body of one scheduled execution.
@@ -212,7 +216,20 @@ pub fn exec(plan: &ExecPlan) -> Result<ExecOut, String> {
     } else {
         None
     };
+    let shut_h = plan.shutdown_after_yields.map(|k| {
+        let p = pool.clone();
+        thread::spawn(move || {
+            for _ in 0..k {
+                thread::sleep(std::time::Duration::from_millis(0));
+            }
+            p.shutdown();
+        })
+    });
     let mut out = ExecOut::default();
+    if let Some(h) = shut_h {
+        h.join().map_err(|_| "shutdown thread panicked".to_string())?;
+        out.shutdown_raced = true;
+    }
     for h in hs {
         out.outcomes.push(h.join().map_err(|_| "dispatcher thread panicked".to_string())?);
     }
@@ -230,7 +247,7 @@ pub fn exec(plan: &ExecPlan) -> Result<ExecOut, String> {
             return Ok(out);
         }
     };
-    if let Some(w) = &plan.wait_for {
+    if let (Some(w), false) = (&plan.wait_for, out.shutdown_raced) {
         let n = w(&out.outcomes);
         while out.results.len() < n {
             match recv() {
